@@ -51,6 +51,11 @@ def _has_bad(s):
 def draw_case(seed):
     r = core.rng(seed, "workload")
     from gen import dexasm, models
+    out_pick = core.rng(seed, "environment-output").choice(OUTPUTS)
+    base = out_pick.rstrip("/").split("/")[-1]
+    # siblings of the output directory whose names merely start with its name (string-prefix containment checks)
+    global SEGS_BAD
+    segs_bad = SEGS_BAD + [base + "-old", base + "put", base, base + "2"]
     classes = []
     used = set()
     style = r.random()
@@ -67,7 +72,9 @@ def draw_case(seed):
         descs, mnames = [], []
         for _ in range(r.randint(1, 3)):
             nseg = r.randint(1, 4)
-            segs = [r.choice(SEGS_BAD) if r.random() < (0.5 if style < 0.8 else 0.0) else r.choice(SEGS_OK) for _ in range(nseg)]
+            segs = [r.choice(segs_bad) if r.random() < (0.5 if style < 0.8 else 0.0) else r.choice(SEGS_OK) for _ in range(nseg)]
+            if style < 0.8 and r.random() < 0.08:
+                segs = [".."] + [r.choice([base + "-old", base + "put", base])] + segs[:2]
             if segs.count("..") > 8:
                 segs = segs[:8]
             d = "L" + ("/" if r.random() < 0.08 else "") + "/".join(segs) + (";" if r.random() < 0.93 else "")
@@ -89,7 +96,8 @@ def draw_case(seed):
                         "sfields": [], "ifields": [], "dmethods": dm, "vmethods": []})
     model = {"classes": classes, "strings_extra": []}
     er = core.rng(seed, "environment")
-    env = {"output": er.choice(OUTPUTS), "form": er.choice([None, None, "raw"]),
+    er.choice(OUTPUTS)
+    env = {"output": out_pick, "form": er.choice([None, None, "raw"]),
            "filter": er.choice([None, None, None, "m", "esc|x"]),
            "preexisting": er.random() < 0.35, "pre_files": er.randint(0, 3),
            "answers": er.choice([["y"], ["n"], ["maybe", "y"], ["", "N"], []])}
